@@ -141,9 +141,10 @@ VARIABLE done
 Init == done = FALSE
 Next == done' = TRUE
 Spec == Init /\ [][Next]_done
-\* (state-level on purpose: TLC evaluates constant-level definitions eagerly at start-up)
-AllBlocksOk   == done \in BOOLEAN /\ \A sh \in Shapes, obj \in Objectives : BlocksOk(sh, obj)
-AllIndexOk    == done \in BOOLEAN /\ \A sh \in Shapes, obj \in Objectives : IndexMapsOk(sh, obj)
-AllUnitsOk    == done \in BOOLEAN /\ \A sh \in Shapes, obj \in Objectives : UnitOk(sh, obj)
-AllProductsOk == done \in BOOLEAN /\ \A sh \in Shapes, obj \in Objectives : ProductOk(sh, obj)
+\* (state-level on purpose: TLC evaluates constant-level definitions eagerly at start-up; evaluated in the successor state,
+\*  i.e. by a worker thread, whose stack size -Xss controls - the initial state is evaluated on the small main-thread stack)
+AllBlocksOk   == done => \A sh \in Shapes, obj \in Objectives : BlocksOk(sh, obj)
+AllIndexOk    == done => \A sh \in Shapes, obj \in Objectives : IndexMapsOk(sh, obj)
+AllUnitsOk    == done => \A sh \in Shapes, obj \in Objectives : UnitOk(sh, obj)
+AllProductsOk == done => \A sh \in Shapes, obj \in Objectives : ProductOk(sh, obj)
 =============================================================================
